@@ -1,4 +1,4 @@
-import Brax.Lemmas.C02Inertia
+import Brax.Lemmas.C02Pipe
 /-!
 # C02 — generalized-pipeline dynamics terms equal the reference engine
 
@@ -347,6 +347,82 @@ theorem cinr_psd (xi : Tf ℝ) (com : V3 ℝ) (it : Inertia ℝ)
     (hI : ∀ w : V3 ℝ, 0 ≤ V3.dot w (M3.mulVec it.i w)) (hm : 0 ≤ it.mass) (v : Motion ℝ) :
     0 ≤ ke (cinrLink xi com it) v :=
   ke_cinrLink_nonneg xi com it hI hm v
+
+/-! ## the matrix `pipeline.init` computes is symmetric positive definite -/
+
+/-- what a physical model satisfies (the generator's models do): consistent shapes, parents
+before children, symmetric non-negative body inertias with non-negative mass, and positive
+armature on every dof -/
+structure PhysOK (s : Sys ℝ) : Prop where
+  parents : s.parents.length = s.types.length
+  links : s.links.length = s.types.length
+  wf : PWF s.parents
+  inertia : ∀ lk ∈ s.links, SymmI lk.inertia
+    ∧ (∀ w : V3 ℝ, 0 ≤ V3.dot w (M3.mulVec lk.inertia.i w)) ∧ 0 ≤ lk.inertia.mass
+  armature : ∀ d ∈ s.dofs, 0 < d.armature
+
+/-- **The joint-space inertia matrix used by the generalized pipeline (`pipeline.init(...).mass_mx`)
+is symmetric and positive definite** for every `PhysOK` system and every state: all hypotheses of
+`massMatrix_symm` / `massMatrix_eq_keForm` / `massMatrix_posDef_of_armature` are discharged for the
+values `transform_com` actually produces. -/
+theorem pipeline_massMatrix_spd (s : Sys ℝ) (h : PhysOK s) (q qd : List ℝ) (X : Nat → Nat → ℝ) :
+    (∀ i j, entry (dynInit s q qd).massMx i j = entry (dynInit s q qd).massMx j i)
+    ∧ 0 ≤ quadForm (dynInit s q qd).massMx (flatVec (dynInit s q qd).com.cdof X)
+    ∧ ((∃ l r, l < (dynInit s q qd).com.cdof.length ∧ r < wAt (dynInit s q qd).com.cdof l ∧ X l r ≠ 0) →
+        0 < quadForm (dynInit s q qd).massMx (flatVec (dynInit s q qd).com.cdof X)) := by
+  set x := (Kin.forward s q qd).map (·.1) with hxdef
+  have hx : x.length = s.types.length := by
+    rw [hxdef, List.length_map]; exact forward_length s q qd h.parents h.links
+  obtain ⟨hc, hd⟩ := transformCom_lengths s x q qd hx h.parents h.links
+  set com := transformCom s x q qd with hcom
+  set arm := (nested s q qd).map (fun l => l.dofs.map (·.armature)) with harmdef
+  have hM : (dynInit s q qd).massMx = massMatrix s.parents com.cinr com.cdof arm := rfl
+  have hC : (dynInit s q qd).com = com := rfl
+  rw [hM, hC]
+  have hps : s.parents.length = com.cdof.length := by rw [hd, h.parents]
+  have hI : com.cinr.length = com.cdof.length := by rw [hc, hd]
+  have hsym : ∀ I ∈ com.cinr, SymmI I := by
+    intro I hI'
+    obtain ⟨xi, c, lk, hlk, rfl⟩ := transformCom_cinr_mem s x q qd I hI'
+    exact cinrLink_symm xi c lk.inertia (h.inertia lk hlk).1
+  have hpsd : ∀ k v, 0 ≤ ke (com.cinr.getD k dI) v := by
+    intro k v
+    rw [List.getD_eq_getElem?_getD]
+    cases hk : com.cinr[k]? with
+    | none => simp only [Option.getD_none]; rw [ke_dI]
+    | some I =>
+      simp only [Option.getD_some]
+      obtain ⟨xi, c, lk, hlk, rfl⟩ := transformCom_cinr_mem s x q qd I (List.mem_of_getElem? hk)
+      exact cinr_psd xi c lk.inertia (h.inertia lk hlk).2.1 (h.inertia lk hlk).2.2 v
+  have harm : ∀ l r, l < com.cdof.length → r < wAt com.cdof l → 0 < armAt arm l r := by
+    intro l r hl hr
+    have hcdof : com.cdof = List.zipWith (fun (li : LinkIn ℝ) (jc : Tf ℝ × V3 ℝ) => cdofLink li jc.1 jc.2)
+        (linkSlices s.types q qd s.dofs)
+        ((jointFrames s x).zip (rootCom s.parents (s.links.map (·.inertia.mass))
+          (List.zipWith (fun (t : Tf ℝ) (lk : LinkP ℝ) => Tf.doTf t lk.inertia.tf) x s.links))) := rfl
+    rw [hcdof, List.length_zipWith] at hl
+    have hl1 : l < (linkSlices s.types q qd s.dofs).length := lt_of_lt_of_le hl (min_le_left _ _)
+    have hl2 := lt_of_lt_of_le hl (min_le_right _ _)
+    obtain ⟨j, c, hrow⟩ : ∃ j c, com.cdof.getD l [] = cdofLink (linkSlices s.types q qd s.dofs)[l] j c :=
+      ⟨_, _, by rw [hcdof]; exact getD_zipWith _ _ _ [] l hl1 hl2⟩
+    unfold wAt at hr
+    rw [hrow] at hr
+    have hr' : r < ((linkSlices s.types q qd s.dofs)[l]).dofs.length :=
+      lt_of_lt_of_le hr (cdofLink_length_le _ _ _)
+    have harow : arm.getD l [] = ((linkSlices s.types q qd s.dofs)[l]).dofs.map (·.armature) := by
+      rw [harmdef, List.getD_eq_getElem?_getD]
+      unfold nested
+      rw [List.getElem?_map, List.getElem?_eq_getElem hl1]; rfl
+    unfold armAt
+    rw [harow, List.getD_eq_getElem?_getD, List.getElem?_map, List.getElem?_eq_getElem hr']
+    simp only [Option.map_some, Option.getD_some]
+    apply h.armature
+    exact linkSlices_dofs_mem _ _ _ _ _ (List.getElem_mem hl1) _ (List.getElem_mem hr')
+  refine ⟨fun i j => massMatrix_symm _ _ _ _ i j, ?_, ?_⟩
+  · exact massMatrix_posSemidef _ _ _ _ X hps hI h.wf hsym hpsd
+      (fun l r hl hr => le_of_lt (harm l r hl hr))
+  · intro hX
+    exact massMatrix_posDef_of_armature _ _ _ _ X hps hI h.wf hsym hpsd harm hX
 
 /-! ## non-vacuity -/
 
